@@ -124,6 +124,21 @@ def hdr_field(hdr, name):
     return m.group(1) if m else None
 
 
+_HASH = __import__("re").compile(r"\b[0-9a-f]{16}\b")
+
+
+def shape(tok):
+    """a trace token without content hashes: result class, error kind, header fields, plane sizes, reader position"""
+    return _HASH.sub("#", tok)
+
+
+def same_shape(model_toks, impl_toks):
+    """as same_trace, comparing shapes only: for properties that do not speak about sample values"""
+    if model_toks is None or impl_toks is None:
+        return False
+    return same_trace([shape(t) for t in model_toks], [shape(t) for t in impl_toks])
+
+
 def same_trace(model_toks, impl_toks):
     """model = implementation, up to the first op the model skipped for size (those run on the implementation only)"""
     if model_toks is None or impl_toks is None:
